@@ -29,7 +29,7 @@ def swallow(cls, prog, out, ex):
 
 @rule("KF-NAMEKEY-COMMENT", "a comment between a table field name and its `=` (`{ a --[[c]] = 1 }`) is dropped; the repository snapshot tests/snapshots/tests__standard@table-comments-2.lua.snap pins this behaviour (`c -- key trailing comment` disappears there too), so it cannot be repaired without editing the suite")
 def namekey(cls, prog, out, ex):
-    return cls == 'comment-lost' and re.search(r'[A-Za-z_]\w*\s*--(\[=*\[c\d+x(\nd)?\]=*\]|\s?c\d+x ?\n)\s*=', prog) is not None
+    return cls == 'comment-lost' and re.search(r'[A-Za-z_]\w*\s*(--(\[=*\[c\d+x(\nd)?\]=*\]|\s?c\d+x ?\n)\s*)+=', prog) is not None
 
 @rule("KF-LENIENT-NEWLINE", "full_moon's tokenizer accepts a raw line break inside a quoted string once any escape sequence has been seen (`\"\\'<LF>\"`), which is not Lua; StyLua removes the now 'unnecessary' escape and the raw line break then ends the string (output does not parse / is not a fixpoint). Only reachable from text that no Lua implementation accepts")
 def lenient_newline(cls, prog, out, ex):
@@ -55,15 +55,15 @@ def similar_idx(cls, prog, out, ex):
 
 @rule("KF-Z-ESCAPED-SPACE", "`\\z` followed by an escaped space (`\"\\z\\ \"`): the backslash before the space is removed as an unnecessary escape, so the space is now skipped by `\\z` and the string loses a character. `\\ ` is only accepted by Luau / full_moon, not by PUC Lua")
 def z_space(cls, prog, out, ex):
-    return cls == 'literal-value' and '\\z\\ ' in prog
+    return cls in ('literal-value', 'tok', 'nf') and '\\z\\ ' in prog
 
 @rule("KF-UNARY-COMMENT", "a comment on its own line between a unary operator and its operand is glued to the operator (`- \\n--c\\na` -> `---c`): the minus becomes part of the comment")
 def unary_comment(cls, prog, out, ex):
-    return re.search(r'(-|not|#|~) \n--', prog) is not None and out is not None and re.search(r'---c\d+x', out) is not None
+    return re.search(r'(-|not|#|~) \n--', prog) is not None and out is not None and re.search(r'---(\[=*\[)?c\d+x', out) is not None
 
 @rule("KF-PAREN-INNER-COMMENT", "a comment on its own line directly before the expression (or type) inside redundant parentheses is dropped together with the parentheses (the comment is leading trivia of the inner expression, which the hanging / type paths do not carry over)")
 def paren_inner(cls, prog, out, ex):
-    return cls == 'comment-lost' and re.search(r'\( \n--c\d+x\n|: \n--c\d+x\n\(|\{ \n--c\d+x\n\(', prog) is not None
+    return cls == 'comment-lost' and re.search(r'[({:] ?(--c\d+x)?\s*\n--(\[\[)?c\d+x(\]\])?\s*\n?\s*[\w(]', prog) is not None
 
 @rule("KF-RAW-COMMENT-COPY", "comments that the formatter MOVES (behind a removed `;`, out of removed parentheses, in front of a hung operator, ...) are copied as raw tokens and skip the normalisation that in-place comments get: a block comment keeps its original line breaks and a line comment keeps its trailing carriage return, whatever line_endings says")
 def raw_comment(cls, prog, out, ex):
